@@ -32,7 +32,7 @@ PROFILE = {
 }
 
 
-E2_PROFILE = {'max_parts': 3, 'weights': {'app': 12, 'allocs': 5, 'repart': 3, 'reboot': 3, 'adv': 3, 'state': 2, 'down': 2, 'tickreboots': 2}, 'force': ['allocs']}
+E2_PROFILE = {'max_parts': 3, 'weights': {'app': 12, 'allocs': 5, 'repart': 3, 'reboot': 3, 'adv': 3, 'state': 2, 'down': 2, 'tickreboots': 2, 'allocrepart': 4}, 'force': ['allocs', 'allocrepart', 'repart']}
 
 
 def strategy(tier):
